@@ -309,7 +309,7 @@ def maxChunks : Nat → Nat → List Tok → Nat
   | m, _, .e _ :: r => maxChunks m 0 r
   | m, k, _ :: r => maxChunks m k r
 
-def runQ (h : Hdr) (outs : List String) : Verdict :=
+def runQ (h : Hdr) (ins outs : List String) : Verdict :=
   match outs with
   | "PANIC" :: cls => .viol s!"C07:crash-{site h.kind} the real code crashed ({" ".intercalate cls})"
   | "HANG" :: _ => .viol s!"C07:hang-{site h.kind} the real code did not return"
@@ -337,6 +337,7 @@ def runQ (h : Hdr) (outs : List String) : Verdict :=
             (if toks.any isMisuse then ["use-after-close"] else []) ++
             (if toks.any isSync then ["partial-sync"] else []) ++
             (if toks.any isTick then ["tick-stall"] else []) ++
+            (if ins.any (fun t => t.startsWith "CL:" || t.startsWith "FL:") then ["stalled-seconds-across-close"] else []) ++
             (if tickWriteFlush 0 toks then ["write-in-tick-then-flush"] else []) ++
             (if maxChunks 0 0 toks > 1 then ["multichunk"] else []) ++
             (if h.hdrw > 1 && h.kind != "AB" then ["multichunk-header"] else [])
@@ -373,6 +374,6 @@ def runLine (ts : List String) : Verdict :=
   | _ =>
     match P.run parseHdr ins with
     | .error e => .bad e
-    | .ok h => runQ h outs
+    | .ok h => runQ h ins outs
 
 end DastardV.C07
